@@ -10,6 +10,29 @@ import Driver.Suites.PW
 import Driver.Suites.Blocklist
 import Driver.Suites.AddrList
 import Driver.Suites.Admission
+import Driver.Suites.Tier
+import Driver.Suites.Trkwire
+import Driver.Suites.Announcer
+import Driver.Suites.Replies
+import Driver.Suites.Parse
+import Driver.Suites.Paths
+import Driver.Suites.Tar
+import Driver.Suites.Remove
+import Driver.Suites.Registry
+import Driver.Suites.ResumeCodec
+import Driver.Suites.Rm
+import Driver.Suites.Wscap
+import Driver.Suites.Bucket
+import Driver.Suites.Sem
+import Driver.Suites.Codec
+import Driver.Suites.Reader
+import Driver.Suites.Geometry
+import Driver.Suites.CreateVerify
+import Driver.Suites.MSE
+import Driver.Suites.Policy
+import Driver.Suites.InfoDL
+import Driver.Suites.Magnet
+import Driver.Suites.Adopt
 /-! Table of suites known to the driver.  One line per suite (merge=union friendly). -/
 namespace Driver
 def registry : List Suite := [
@@ -18,6 +41,8 @@ def registry : List Suite := [
   Suites.Loop.mkSuite "lifecycle",
   Suites.Loop.mkSuite "loop-magnet",
   Suites.Loop.mkSuite "private",
+  Suites.Loop.mkSuite "crashpoints",
+  Suites.Loop.mkSuite "serve",
   Suites.Request.suite,
   Suites.Readpath.suite,
   Suites.WQ.suite,
@@ -29,5 +54,29 @@ def registry : List Suite := [
   Suites.Blocklist.suite,
   Suites.AddrList.suite,
   Suites.Admission.suite,
+  Suites.Tier.suite,
+  Suites.Trkwire.suite,
+  Suites.Announcer.suite,
+  Suites.Replies.suite,
+  Suites.Parse.suite,
+  Suites.Paths.suite,
+  Suites.Tar.suite,
+  Suites.Remove.suite,
+  Suites.Registry.suite,
+  Suites.Registry.suiteConcurrent,
+  Suites.ResumeCodec.suite,
+  Suites.Rm.suite,
+  Suites.Wscap.suite,
+  Suites.Bucket.suite,
+  Suites.Sem.suite,
+  Suites.Codec.suite,
+  Suites.Reader.suite,
+  Suites.Geometry.suite,
+  Suites.CreateVerify.suite,
+  Suites.MSE.suite,
+  Suites.Policy.suite,
+  Suites.InfoDL.suite,
+  Suites.Magnet.suite,
+  Suites.Adopt.suite,
 ]
 end Driver
